@@ -323,6 +323,26 @@ class _Rem(Evaluator):
         raise AnalysisError("unbound %s" % node.id)
 
 
+def r_stationary_list(ctx):
+    """Every recorded sample whose (pruned) gradient is zero joins the stationary list, whichever way it reached the function
+    (stationary_point, a step, a composite handing a zero remainder to a term): the test sits in add_point."""
+    fn = _fn(ctx, "add_point")
+    trip = params_of(fn)[1]
+    un = [s for s in fn.body if isinstance(s, ast.Assign) and isinstance(s.targets[0], ast.Tuple) and dotted(s.value) == trip and len(s.targets[0].elts) == 3]
+    if len(un) != 1:
+        ctx.ob("R-STAT", "Function.add_point::stationary list", False, "the triplet is not unpacked into (point, gradient, value)", loc(fn, fn))
+        return
+    p, g, f = [e.id for e in un[0].targets[0].elts]
+    st = [c for c in ast.walk(fn) if isinstance(c, ast.Call) and call_name(c) == "append" and dotted(c.func.value) == "self.list_of_stationary_points"]
+    oks = False
+    if len(st) == 1:
+        conds = flow.conditions_guarding(common.stmt_of(st[0]))
+        oks = len(conds) == 1 and conds[0][1] and src(conds[0][0]).replace(" ", "") in ("%s.decomposition_dict==dict()" % g, "%s.decomposition_dict=={}" % g, "not%s.decomposition_dict" % g, "len(%s.decomposition_dict)==0" % g, "notlen(%s.decomposition_dict)" % g) \
+            and dotted(st[0].args[0]) == trip
+    ctx.ob("R-STAT", "Function.add_point::stationary list", oks,
+           "a sample joins the stationary list exactly when its pruned gradient is zero" if oks else "the stationary list is not fed by `gradient decomposition == {}`", loc(fn, fn))
+
+
 def r_addpoint(ctx):
     fn = _fn(ctx, "add_point")
     trip = params_of(fn)[1]
@@ -359,14 +379,7 @@ def r_addpoint(ctx):
            "every sample handed to add_point is appended to list_of_points, on every path" if okr else
            "on some path add_point completes without registering the sample (appends per completing path: %s): a step that records a sample on the "
            "function (e.g. a proximal step at an already evaluated point) silently loses it" % sorted(normal), loc(fn, fn))
-    st = [c for c in ast.walk(fn) if isinstance(c, ast.Call) and call_name(c) == "append" and dotted(c.func.value) == "self.list_of_stationary_points"]
-    oks = False
-    if len(st) == 1:
-        conds = flow.conditions_guarding(common.stmt_of(st[0]))
-        oks = len(conds) == 1 and conds[0][1] and src(conds[0][0]).replace(" ", "") in ("%s.decomposition_dict==dict()" % g, "%s.decomposition_dict=={}" % g, "not%s.decomposition_dict" % g) \
-            and dotted(st[0].args[0]) == trip
-    ctx.ob("R-STAT", "Function.add_point::stationary list", oks,
-           "a sample joins the stationary list exactly when its pruned gradient is zero" if oks else "the stationary list is not fed by `gradient decomposition == {}`", loc(fn, fn))
+    r_stationary_list(ctx)
     # 2. composite branch: weights pruned, then remainder
     comp = [s for s in fn.body if isinstance(s, ast.If) and src(s.test).replace(" ", "") in ("notself._is_leaf", "notself.get_is_leaf()")]
     if len(comp) != 1:
@@ -537,12 +550,30 @@ def r_stat(ctx):
     msg = "stationary_point does not register one sample"
     if len(adds) == 1 and isinstance(adds[0].args[0], ast.Tuple) and len(adds[0].args[0].elts) == 3:
         x, g, f = [dotted(e) for e in adds[0].args[0].elts]
-        defs = {dotted(s.targets[0]): s.value for s in flow.stmts_of(fn, ast.Assign) if isinstance(s.targets[0], ast.Name)}
+        alldefs = {}
+        for s in flow.stmts_of(fn, ast.Assign):
+            for t in s.targets:
+                if isinstance(t, ast.Name):
+                    alldefs.setdefault(t.id, []).append(s.value)
+                elif isinstance(t, ast.Tuple) and isinstance(s.value, ast.Tuple) and len(t.elts) == len(s.value.elts):
+                    for te, ve in zip(t.elts, s.value.elts):
+                        if isinstance(te, ast.Name):
+                            alldefs.setdefault(te.id, []).append(ve)
+        # the member that breaks the rule is the one reported: every definition of each member must have the required form
+        defs = {}
 
         def leaf(v, cls):
             return isinstance(v, ast.Call) and call_name(v) == cls and (get_arg(v, 0, "is_leaf") is None or is_const(get_arg(v, 0, "is_leaf"), True))
+
+        def is_zero(v):
+            return isinstance(v, ast.Call) and call_name(v) == "Point" and is_const(get_arg(v, 0, "is_leaf"), False) and \
+                get_arg(v, 1, "decomposition_dict") is not None and src(get_arg(v, 1, "decomposition_dict")) in ("dict()", "{}")
+        for nm, pred in ((x, lambda v: leaf(v, "Point")), (g, is_zero), (f, lambda v: leaf(v, "Expression"))):
+            ds = alldefs.get(nm, [])
+            badd = [v for v in ds if not pred(v)]
+            defs[nm] = badd[0] if badd else (ds[0] if ds else None)
         zero = defs.get(g)
-        okz = isinstance(zero, ast.Call) and call_name(zero) == "Point" and is_const(get_arg(zero, 0, "is_leaf"), False) and src(get_arg(zero, 1, "decomposition_dict")) in ("dict()", "{}")
+        okz = is_zero(zero)
         ok = leaf(defs.get(x), "Point") and okz and leaf(defs.get(f), "Expression")
         msg = "registers (fresh point, zero gradient, fresh value)" if ok else "registers (%s, %s, %s) which is not (fresh point, zero gradient, fresh value)" % (
             src(defs.get(x)) if defs.get(x) is not None else x, src(zero) if zero is not None else g, src(defs.get(f)) if defs.get(f) is not None else f)
